@@ -98,6 +98,9 @@ func (s *Slicer) enter(f *ssa.Function) {
 
 // Leaves returns the origins of v.
 func (s *Slicer) Leaves(v ssa.Value) []Leaf {
+	if s.Root != nil {
+		defer WithRoot(s.Root)()
+	}
 	var out []Leaf
 	seen := map[string]bool{}
 	s.walk(v, nil, s.CallDepth, seen, &out, 0)
